@@ -249,6 +249,8 @@ class Sched:
         kind = info[0]
         if kind in ("begin", "visible"):
             return TRUE
+        if kind == "forever":
+            return FALSE
         if kind == "acquire":
             lk = info[1]
             if lk.f["reentrant"]:
@@ -328,7 +330,8 @@ class Sched:
                         continue
                     en = self.enabled(s, k)
                     any_enabled.append(AND(s.guard, en))
-                    any_unfinished.append(s.guard)
+                    if s.park[0] != "forever":
+                        any_unfinished.append(s.guard)
                     any_timed.append(AND(s.guard, self.timed(s)))
                     plan.append((t, s, en))
             none_enabled = NOT(OR(*any_enabled))
@@ -344,7 +347,7 @@ class Sched:
             # threads created during this step only start moving at the next step
             newloc = {t: [] for t in tids}
             for t in tids:
-                unfinished = OR(*[s.guard for s in self.threads[t] if s.status == "parked"])
+                unfinished = OR(*[s.guard for s in self.threads[t] if s.status == "parked" and s.park[0] != "forever"])
                 vm.assume(IMPLIES(hot[t], unfinished))
                 for s in self.threads[t]:
                     if s.status != "parked":
@@ -395,6 +398,8 @@ class Sched:
         for s in states:
             if s.guard is FALSE:
                 continue
+            if s.guard.sz > 6:
+                s.guard = vm.name_guard(s.guard)   # keep the guards used while merging frames small
             key = s.key() if s.status == "parked" else (s.status, repr(s.result) if s.status == "raised" else None)
             o = bykey.get(key)
             if o is None:
